@@ -2,7 +2,7 @@
    (include/multitensor/solver.hpp:496-523, 570-662) and of Report::max_L2 (utils.hpp:55-66),
    over an abstract sweep, likelihood and affinity initialiser, with the working buffers
    u_temp, v_temp, w_temp and the caller's u, v, w EXPLICIT (the code exchanges them by
-   std::swap, and u_temp is never re-zeroed). *)
+   std::swap; u_temp and v_temp are re-zeroed by resize at the start of every realization). *)
 From Coq Require Import List Arith Bool.
 Import ListNotations.
 From MT Require Import Arith SweepModel InitModel.
@@ -69,7 +69,7 @@ Section Run.
   Definition start_of (b : bufs) : IC * st * list num :=
     let '(ic', wt, s1) := initw (ic b) (cw b) (strm b) in
     let '(vt, s2) := if directed then init_rows num A K vl (zeros num A N K) s1 else (tv b, s1) in
-    let '(ut, s3) := init_rows num A K ul (tu b) s2 in
+    let '(ut, s3) := init_rows num A K ul (zeros num A N K) s2 in   (* u_temp.resize(N, K) re-zeroes *)
     (ic', (ut, vt, wt), s3).
 
   Definition one_realization (maxit nconv : nat) (b : bufs) (i : nat) : bufs :=
